@@ -813,15 +813,9 @@ class UnaryOp(Expr):
         else:
             raise InternalError('Unknown unary operator')
 
-        if self.arg.type == Type.INTEGER:
-            max_positive_int = 2**15 - 1
-            max_negative_int = -2**15
-        else:
-            max_positive_int = 2**31 - 1
-            max_negative_int = -2**31
-
-        if value > max_positive_int or value < max_negative_int:
-            value = max_negative_int
+        if self.type.is_integral and not self.type.can_hold(value):
+            # leave it to the machine to report the overflow
+            raise OverflowError
 
         return value
 
